@@ -286,6 +286,24 @@ void h_script_property(void)
     _Bool fault_seen = 0;
     int rc, n, t;
 
+#ifdef S_PLIST
+    /*
+     * the forms that are NOT idempotent: append and insert.  A call that fails
+     * after the element was added must take it out again, or the repeat adds
+     * a second one.
+     */
+    P_STEP("append a map element", vnaproperty_set(&root, "l[+].x=1"));
+    fault_seen = verif_alloc_failed;
+    P_GET("after the first append: one element", n, vnaproperty_count(root, "l"), n == 1);
+    fault_seen = verif_alloc_failed;
+    P_STEP("insert a map element in front", vnaproperty_set(&root, "l[0+].x=2"));
+    fault_seen = verif_alloc_failed;
+    P_GET("final tree: two elements", n, vnaproperty_count(root, "l"), n == 2);
+    P_GET("final tree: the inserted element is first", v, vnaproperty_get(root, "l[0].x"), v != NULL && p_str_eq(v, "2"));
+    P_GET("final tree: the appended element is second", v, vnaproperty_get(root, "l[1].x"), v != NULL && p_str_eq(v, "1"));
+    P_GET("final tree: one key", n, vnaproperty_count(root, "."), n == 1);
+    (void)t;
+#else
     P_STEP("set foo", vnaproperty_set(&root, "foo=bar"));
     fault_seen = verif_alloc_failed;
     P_STEP("set other", vnaproperty_set(&root, "other=1"));
@@ -298,6 +316,7 @@ void h_script_property(void)
     P_GET("final tree: the sibling is intact", v, vnaproperty_get(root, "other"), v != NULL && p_str_eq(v, "1"));
     P_GET("final tree: two keys", n, vnaproperty_count(root, "."), n == 2);
     P_GET("final tree: foo is a map", t, vnaproperty_type(root, "foo"), t == 'm');
+#endif
     REACH("script finished");
 #if VERIF_FAIL_AT > 0
     CHECK(verif_alloc_failed, "infra: the injected fault was never reached (vacuous run)");
